@@ -351,6 +351,9 @@ m("df-slot", "dirty.flag", F+"proto/proto_array.go", "\tpr.updatedConnections = 
 m("eq-reset-zero", "exitqueue.reset", B+"phase0/voluntary_exit.go", "\t\t\texitQueueEnd = valExit\n\t\t\texitQueueEndChurn = 1\n", "\t\t\texitQueueEnd = valExit\n\t\t\texitQueueEndChurn = 0\n", "InitiateValidatorExit:exitQueueEnd")
 m("eq-reset-one", "exitqueue.reset", B+"phase0/registry.go", "\t\t\texitQueueEnd = exit\n\t\t\texitQueueEndChurn = 0\n", "\t\t\texitQueueEnd = exit\n\t\t\texitQueueEndChurn = 1\n", "ComputeRegistryProcessData:exitQueueEnd")
 
+
+m("ta-setbacking-leaf", "tree.alias", B+"phase0/validator.go", "\twCred := RootView(b)\n\treturn v.Set(_validatorWithdrawalCredentials, &wCred)", "\twCred, err := v.Get(_validatorWithdrawalCredentials)\n\tif err != nil {\n\t\treturn err\n\t}\n\treturn wCred.SetBacking(&b)", "ValidatorView.SetWithdrawalCredentials:SetBacking")
+
 # lazy.init / lock.atomic positive cases are today's known findings (no mutant needed: they are violations on the tree)
 
 M = [x for x in M if not x["expect"].startswith("XX")]
